@@ -20,6 +20,7 @@ def run(res):
     if res.broken:
         n = max(n, 1500)      # failing-input search on the implementation
     pc.pool_check(res, 'C09', n, focus=FOCUS)
+    pc.hook_cases_C09(res)
     # the closed system with crashes (Model/PoolCrash.v), schedules without the racy pass of the recorded C04 finding
     pc.crash_closed_check(res, 'C09', 40 if res.tier == 'quick' else 800, allow_early=False)
     # the per-child task quota is the worker loop's business: the real Worker.workloop against
